@@ -71,6 +71,9 @@ var ReadOps = []string{"Partitions:t", "WritablePartitions:t", "Leader:t:1", "Le
 var MoreReadOps = []string{"Partitions:u", "WritablePartitions:u", "Leader:t:0", "Leader:t:2", "InSyncReplicas:t:0", "OfflineReplicas:u:0"}
 var RefreshOps = []string{"R", "R:t", "R:u", "R:t,u"}
 
+// OtherOps: client calls that are not metadata reads but touch the broker registry
+var OtherOps = []string{"Coord:g"}
+
 func parseRead(op string) (Call, bool) {
 	f := strings.Split(op, ":")
 	c := Call{Op: f[0]}
@@ -202,6 +205,23 @@ func RunHistory(t *testing.T, h *HistCase) *HistResult {
 				}
 				o, v := doRefresh(client, s, ref, topics)
 				note(where, o, v)
+			} else if strings.HasPrefix(e.Op, "Coord:") {
+				// Coordinator(group): not judged (not a metadata read), but the client registers the broker it is told
+				n0, c0 := s.Served(), len(s.CoordsFrom(0))
+				b, err := client.Coordinator(e.Op[6:])
+				o := &Obs{Op: "Coordinator", Topic: e.Op[6:]}
+				setErr(o, err)
+				if b != nil {
+					o.Ints = []int32{b.ID()}
+				}
+				o.Resps = s.LogFrom(n0)
+				for i := range o.Resps {
+					ref.Fold(&o.Resps[i])
+				}
+				for _, co := range s.CoordsFrom(c0) {
+					ref.Register(co)
+				}
+				note(where, o, nil)
 			} else {
 				c, ok := parseRead(e.Op)
 				if !ok {
